@@ -125,6 +125,12 @@ x+             { return 9; }
      r         { return 3; }
      ^s        { return 4; }
   }
+  <*>{
+     k         { return 12; }
+  }
+  m            { return 13; }
+  <*>n         { return 14; }
+  o            { return 15; }
 }
 <EXC1,EXC2>t   { return 5; }
 <*>u           { return 6; }
